@@ -914,6 +914,51 @@ def rule_logstep(ctx):
                              "an unconditional step is possible at counter >= num_reserved", fact_strs(e)))
         agg(ctx, "logstep", k, g[0].node, src(k, g[0].node), "every change of the counter is +1", res1)
         agg(ctx, "logstep", k, g[0].node, src(k, g[0].node), "deterministic below num_reserved, probabilistic at or above it", res2)
+    # the counter variable is changed only inside the loop, and every return hands back that variable
+    cname = k.params[0]
+    loopn = lp.node if lp else None
+    outside = []
+    for n in walk_no_nested(k.node):
+        if isinstance(n, (ast.Assign, ast.AugAssign)):
+            tg = n.targets if isinstance(n, ast.Assign) else [n.target]
+            for t in tg:
+                for e_ in (t.elts if isinstance(t, (ast.Tuple, ast.List)) else [t]):
+                    if isinstance(e_, ast.Name) and e_.id == cname and not (loopn is not None and loopn.lineno <= n.lineno <= loopn.end_lineno):
+                        outside.append(n)
+    ctx.ob("logstep", k, outside[0] if outside else k.node, "assignments to `%s` outside the step loop" % cname,
+           "the counter changes only through the per-unit steps of the loop", True if not outside else None,
+           "" if not outside else "`%s` changes the counter outside the per-unit loop: shape not understood" % unparse(outside[0], 60))
+    c0 = Lin.term(("param", cname))
+    vv = Lin.term(("param", "value"))
+    nrl = Lin.term(("param", "num_reserved"))
+    res_in, res_pre = [], []
+    for r in [e for e in w.events if e.kind == "ret" and not e.implicit]:
+        v = r.value
+        first = v.items[0] if isinstance(v, Tup) and v.items else v
+        if not isinstance(first, Num):
+            res_in.append((None, "returned counter not understood"))
+            continue
+        before = not r.loops and not any(x.kind == "loopstart" for x in on_path(w.events, r))
+        if not before:
+            cur = r.env.get(cname)
+            okk = isinstance(cur, Num) and first.lin == cur.lin
+            res_in.append((okk, "returns the step-wise maintained counter" if okk else
+                           "returns %s, not the counter maintained by the per-unit steps" % show_lin(first.lin), fact_strs(r)))
+        else:
+            mv = r.env.get("uint_maxval")
+            same = w.P.prove_eq0(first.lin - c0, r.facts)
+            p_zero = same and w.P.prove_le0(vv, r.facts)
+            p_sat = same and isinstance(mv, Num) and w.P.prove_le0(mv.lin - c0, r.facts)
+            p_det = w.P.prove_eq0(first.lin - c0 - vv, r.facts) and w.P.prove_le0(c0 + vv - nrl, r.facts)
+            okk = bool(p_zero or p_sat or p_det)
+            res_pre.append((okk, "nothing to add / saturated / whole add inside the exact range" if okk else
+                            "a shortcut returns %s before any per-unit step without establishing that this equals counter + value inside "
+                            "the reserved range (or that nothing is to be added)" % show_lin(first.lin), fact_strs(r)))
+    rl = [e for e in w.events if e.kind == "ret" and not e.implicit]
+    agg(ctx, "logstep", k, rl[0].node if rl else k.node, "returns inside/after the step loop", "every such exit returns the counter the steps maintain", res_in)
+    if res_pre:
+        pre_nodes = [e for e in rl if not e.loops and not any(x.kind == "loopstart" for x in on_path(w.events, e))]
+        agg(ctx, "logstep", k, pre_nodes[0].node, "return before the step loop", "a shortcut around the per-unit steps must be value-exact", res_pre)
     # returns satisfy the declared summary and fit the return type
     rets = [e for e in w.events if e.kind == "ret" and not e.implicit]
     res = []
@@ -1072,3 +1117,49 @@ def rule_msum(ctx):
             cnt = [x for x in on_path(w.events, le) if x in stores and x.loops == le.loops]
             r2.append((len(cnt) == 1, "one store per cell" if len(cnt) == 1 else "%d stores on a path through the cell update" % len(cnt), fact_strs(le)))
         agg(ctx, "msum", k, k.node, "cell update of %s" % k.name, "every path through the loop body stores the cell exactly once", r2)
+
+
+# ---------------------------------------------------------------------------
+# no-skip: an add kernel leaves early only when there is provably nothing to do
+# ---------------------------------------------------------------------------
+
+def rule_no_skip(ctx, kernels, rule="no-skip"):
+    F = facts_of(ctx)
+    qk = {q.name for q in query_kernels(F)}
+    for k in kernels:
+        w = walk_kernel(F, k)
+        tabs = set(table_params(F, k, {"cms", "lhh_count"}))
+        rets = [e for e in w.events if e.kind == "ret"]
+        early = [r for r in rets if not _exit_follows_store_loop(k, r, tabs)]
+        late = [r for r in rets if _exit_follows_store_loop(k, r, tabs)]
+        ctx.ob(rule, k, k.node, "%s: %d normal exit(s) after the update loop" % (k.name, len(late)),
+               "the kernel has a path that performs the table update", bool(late))
+        value = Lin.term(("param", "value")) if "value" in k.params else None
+        res = []
+        for r in early:
+            pre = on_path(w.events, r)
+            q = [c for c in pre if c.kind == "call" and c.name in qk and isinstance(c.result, Num)]
+            lc = [c for c in pre if c.kind == "call" and c.name == "_log_counter" and isinstance(c.result, Tup)]
+            why = None
+            if value is not None and w.P.prove_le0(value, r.facts):
+                why = "multiplicity is 0"
+            elif lc and q:
+                r0 = lc[-1].result.items[0]
+                if isinstance(r0, Num) and w.P.prove_eq0(r0.lin - q[-1].result.lin, r.facts):
+                    why = "the log counter did not advance (new_count == min_count)"
+                else:
+                    # through an in-range cast of the result
+                    for c in pre:
+                        if c.kind == "cast" and isinstance(c.arg, Num) and isinstance(r0, Num) and c.arg.lin == r0.lin and isinstance(c.result, Num):
+                            if w.P.prove_eq0(c.result.lin - q[-1].result.lin, r.facts):
+                                why = "the log counter did not advance (new_count == min_count)"
+            elif q and tabs:
+                t = next(iter(tabs))
+                ceiling = k.ptypes[t].scalar.range()[1]
+                if w.P.prove_le0(Lin.const(ceiling) - q[-1].result.lin, r.facts):
+                    why = "the key's minimum is already at the ceiling"
+            res.append((why is not None, why or "the kernel can return without updating the table although the key's estimate should change "
+                                                "(no fact shows the multiplicity is 0, the counter saturated, or the log step was a no-op)", fact_strs(r)))
+        if early:
+            agg(ctx, rule, k, early[0].node, "%s: early return" % k.name,
+                "an add is cut short only when nothing has to change (saturated key / no-op log step / zero multiplicity)", res)
